@@ -64,7 +64,7 @@ impl Prop for C20 {
         tier.pick(16, 160)
     }
     fn mandatory(&self, _t: Tier) -> Vec<String> {
-        ["info:standard", "info:agile", "info:extensible", "package:mini", "package:regular", "package:empty", "ooxml:sector:4096", "ooxml:dir_holes", "ooxml:no_mini_stream", "filepass:xor", "filepass:rc4", "filepass:cryptoapi", "filepass:biff5", "filepass:position>0", "ods:encrypted_entries:1", "ods:encrypted_entries:>1", "plain:xlsx", "plain:xlsb", "plain:xls", "plain:ods"]
+        ["info:standard", "info:agile", "info:extensible", "package:mini", "package:regular", "package:empty", "package:difat", "ods:plain_entries_listed_first", "ooxml:sector:4096", "ooxml:dir_holes", "ooxml:no_mini_stream", "filepass:xor", "filepass:rc4", "filepass:cryptoapi", "filepass:biff5", "filepass:position>0", "ods:encrypted_entries:1", "ods:encrypted_entries:>1", "plain:xlsx", "plain:xlsb", "plain:xls", "plain:ods"]
             .iter().map(|s| s.to_string()).collect()
     }
     fn run_unit(&self, ctx: &Ctx, unit: u64, out: &mut UnitResult) {
@@ -74,6 +74,11 @@ impl Prop for C20 {
             // ---- (a) OOXML
             let info = encryption_info(&mut rng, out);
             let plen = match rng.below(6) {
+                _ if unit == 0 && i == 1 => {
+                    // a package large enough for the container to need a DIFAT sector (> 109 FAT sectors)
+                    out.feat("package:difat");
+                    7_300_000 + rng.usize(500_000)
+                }
                 0 => {
                     out.feat("package:empty");
                     0
@@ -112,7 +117,10 @@ impl Prop for C20 {
                 let n = entries.len();
                 entries.swap(n - 2, n - 1);
             }
-            let cc = if i == 0 { CfbChoices::default() } else { CfbChoices::random(&mut rng) };
+            let mut cc = if i == 0 { CfbChoices::default() } else { CfbChoices::random(&mut rng) };
+            if plen >= 7_000_000 {
+                cc.v4 = false; // 512-byte sectors: more than 109 FAT sectors, hence a DIFAT sector
+            }
             if cc.v4 {
                 out.feat("ooxml:sector:4096");
             }
@@ -205,6 +213,10 @@ impl Prop for C20 {
             // ---- (c) ods
             let mut oc = OdsChoices::random(&mut rng);
             oc.encrypted_entries = 1 + (i as usize % 4);
+            oc.plain_entries_first = (i / 4) % 2 == 1;
+            if oc.plain_entries_first {
+                out.feat("ods:plain_entries_listed_first");
+            }
             out.feat(if oc.encrypted_entries == 1 { "ods:encrypted_entries:1" } else { "ods:encrypted_entries:>1" });
             let o = ods::encode(&book, &oc, &mut rng);
             match guard(|| Ods::new(Cursor::new(o.bytes.clone()))) {
